@@ -274,6 +274,18 @@ type kept struct {
 	where      string
 }
 
+// safePoison is poison for memory the library handed back: false if writing to it faults.
+func safePoison(b []byte, v byte) (ok bool) {
+	defer panicOnFault()()
+	defer func() {
+		if recover() != nil {
+			ok = false
+		}
+	}()
+	poison(b, v)
+	return true
+}
+
 func poison(b []byte, v byte) {
 	full := b[:cap(b)]
 	for i := range full {
@@ -454,11 +466,13 @@ func (c16) Exec(sc *Scenario, st *Stats) *Violation {
 			st.fault("X-overwrite")
 			poison(data, 0x3F)
 			ki.snap = append([]byte(nil), data[:cap(data)]...)
-			if x.scratch != nil {
-				poison(*x.scratch, 0x3E)
+			// the caller's own scratch / destination: if writing to them faults, the library has made
+			// them point into a (read-only mapped) input - the caller's next use would write into it
+			if x.scratch != nil && !safePoison(*x.scratch, 0x3E) {
+				return viol("input-modified", "the scratch buffer the call handed back lies inside a (read-only mapped) input: the caller's next use of its own scratch writes into that input")
 			}
-			if isAppender && x.dst != nil {
-				poison(x.dst, 0x3D)
+			if isAppender && x.dst != nil && !safePoison(x.dst, 0x3D) {
+				return viol("input-modified", "the destination the call handed back lies inside a (read-only mapped) input")
 			}
 		}
 		for _, k := range keptInputs {
